@@ -381,6 +381,22 @@ def main(tier, seed):
             account("churn-release", check_log(p.stdout, bats, "churn-release"), spec)
     except subprocess.TimeoutExpired:
         errors.append("watchdog: churn-release")
+    # 1a''. very many mode changes in one thread (bookkeeping that counts set_default calls): 2^25 in the quick tier,
+    #       2^32 + 64 in the thorough tier (~15 s in release); default() and one rounding checked at every 2^k-th call
+    n_spin = (1 << 25) + 64 if tier == "quick" else (1 << 32) + 64
+    spin_req = os.path.join(wdir, "setspin.req")
+    open(spin_req, "w").write("setspin %d\ngetmode\nround D25:1 0\n" % n_spin)
+    try:
+        p = subprocess.run([binary, spin_req], stdout=subprocess.PIPE, stderr=subprocess.PIPE, text=True, timeout=1200)
+        out = [l.split(" ~")[0] for l in p.stdout.strip().split("\n")]
+        total["events"] += 3
+        if p.returncode != 0:
+            errors.append("setspin exited with %d" % p.returncode)
+        elif out[:3] != ["S 0 0", "M RoundHalfEven", "V 2 0"]:
+            viol.append({"run": "setspin-release", "spec": spin_req, "what": "after %d set_default calls: %r (expected S 0 0 = no mismatch between the mode set and default() / the rounding result, then M RoundHalfEven, V 2 0)" % (n_spin, out[:3])})
+        runs.append({"run": "setspin-release", "events": 3, "set_default_calls": n_spin})
+    except subprocess.TimeoutExpired:
+        errors.append("watchdog: setspin")
     phase_churn = round(time.time() - t0, 1)
     # 1b. small-state workloads, each in a fresh process
     t_small = time.time()
